@@ -692,7 +692,7 @@ pub proof fn lemma_br_break_all(x: Brick)
 // ---------------- normalize: replacing a sub-list by an equivalent one ------------------------------------------------------
 
 pub proof fn lemma_br_sum_concat(a: Seq<BrickDomain>, b: Seq<BrickDomain>)
-    ensures br_max_sum(a + b) == br_max_sum(a) + br_max_sum(b),
+    ensures br_measure(a + b) == br_measure(a) + br_measure(b),
     decreases b.len()
 {
     if b.len() == 0 {
@@ -706,21 +706,21 @@ pub proof fn lemma_br_sum_concat(a: Seq<BrickDomain>, b: Seq<BrickDomain>)
 
 pub proof fn lemma_br_sum_small(l: Seq<BrickDomain>)
     ensures
-        l.len() == 0 ==> br_max_sum(l) == 0,
-        l.len() == 1 ==> br_max_sum(l) == br_max_of(l[0]),
-        l.len() == 2 ==> br_max_sum(l) == br_max_of(l[0]) + br_max_of(l[1]),
+        l.len() == 0 ==> br_measure(l) == 0,
+        l.len() == 1 ==> br_measure(l) == br_weight(l[0]),
+        l.len() == 2 ==> br_measure(l) == br_weight(l[0]) + br_weight(l[1]),
 {
     if l.len() == 1 {
-        assert(br_max_sum(l.drop_last()) == 0);
+        assert(br_measure(l.drop_last()) == 0);
     }
     if l.len() == 2 {
         let d = l.drop_last();
         assert(d.len() == 1);
-        assert(br_max_sum(d.drop_last()) == 0);
+        assert(br_measure(d.drop_last()) == 0);
         assert(d.last() == l[0]);
-        assert(br_max_sum(d) == br_max_sum(d.drop_last()) + br_max_of(d.last()));
+        assert(br_measure(d) == br_measure(d.drop_last()) + br_weight(d.last()));
         assert(l.last() == l[1]);
-        assert(br_max_sum(l) == br_max_sum(d) + br_max_of(l.last()));
+        assert(br_measure(l) == br_measure(d) + br_weight(l.last()));
     }
 }
 
@@ -782,7 +782,7 @@ pub proof fn lemma_br_split1(l: Seq<BrickDomain>, i: int)
     requires 0 <= i < l.len(),
     ensures
         l =~= l.subrange(0, i) + seq![l[i]] + l.subrange(i + 1, l.len() as int),
-        br_max_sum(l) == br_max_sum(l.subrange(0, i)) + br_max_of(l[i]) + br_max_sum(l.subrange(i + 1, l.len() as int)),
+        br_measure(l) == br_measure(l.subrange(0, i)) + br_weight(l[i]) + br_measure(l.subrange(i + 1, l.len() as int)),
 {
     let pre = l.subrange(0, i);
     let post = l.subrange(i + 1, l.len() as int);
@@ -799,7 +799,7 @@ pub proof fn lemma_br_norm_remove(l: Seq<BrickDomain>, i: int)
         forall |x: Seq<char>| #[trigger] l[i].br_gamma(x) <==> x.len() == 0,
     ensures
         br_list_equiv(l.remove(i), l),
-        br_max_sum(l.remove(i)) <= br_max_sum(l),
+        br_measure(l.remove(i)) == br_measure(l) - br_weight(l[i]),
         br_list_wf(l) ==> br_list_wf(l.remove(i)),
 {
     let pre = l.subrange(0, i);
@@ -831,7 +831,7 @@ pub proof fn lemma_br_norm_update(l: Seq<BrickDomain>, i: int, t: BrickDomain)
         forall |x: Seq<char>| #[trigger] t.br_gamma(x) <==> l[i].br_gamma(x),
     ensures
         br_list_equiv(l.update(i, t), l),
-        br_max_sum(l.update(i, t)) == br_max_sum(l) - br_max_of(l[i]) + br_max_of(t),
+        br_measure(l.update(i, t)) == br_measure(l) - br_weight(l[i]) + br_weight(t),
         (br_list_wf(l) && t.br_wf()) ==> br_list_wf(l.update(i, t)),
 {
     let pre = l.subrange(0, i);
@@ -857,7 +857,7 @@ pub proof fn lemma_br_norm_break(l: Seq<BrickDomain>, i: int, b1: Brick, b2: Bri
         forall |x: Seq<char>| l[i].br_gamma(x) <==> #[trigger] br_cat2(b1, b2, x),
     ensures
         br_list_equiv(l.update(i, BrickDomain::Value(b1)).insert(i + 1, BrickDomain::Value(b2)), l),
-        br_max_sum(l.update(i, BrickDomain::Value(b1)).insert(i + 1, BrickDomain::Value(b2))) == br_max_sum(l) - br_max_of(l[i]) + b1.max + b2.max,
+        br_measure(l.update(i, BrickDomain::Value(b1)).insert(i + 1, BrickDomain::Value(b2))) == br_measure(l) - br_weight(l[i]) + br_weight(BrickDomain::Value(b1)) + br_weight(BrickDomain::Value(b2)),
         (br_list_wf(l) && b1.br_wf() && b2.br_wf()) ==> br_list_wf(l.update(i, BrickDomain::Value(b1)).insert(i + 1, BrickDomain::Value(b2))),
 {
     let pre = l.subrange(0, i);
@@ -892,8 +892,7 @@ pub proof fn lemma_br_norm_merge(l: Seq<BrickDomain>, i: int, x: Brick, y: Brick
         forall |w: Seq<char>| #[trigger] m.br_gamma(w) <==> br_cat2(x, y, w),
     ensures
         br_list_equiv(l.update(i, BrickDomain::Value(m)).remove(i + 1), l),
-        br_max_sum(l.update(i, BrickDomain::Value(m)).remove(i + 1)) == br_max_sum(l) - x.max - y.max + m.max,
-        x.max + y.max <= br_max_sum(l),
+        br_measure(l.update(i, BrickDomain::Value(m)).remove(i + 1)) == br_measure(l) - br_weight(l[i]) - br_weight(l[i + 1]) + br_weight(BrickDomain::Value(m)),
         (br_list_wf(l) && m.br_wf()) ==> br_list_wf(l.update(i, BrickDomain::Value(m)).remove(i + 1)),
 {
     let pre = l.subrange(0, i);
@@ -955,52 +954,6 @@ pub proof fn lemma_br_bound_one(x: Brick, y: Brick, m: Brick, w: Seq<char>)
         lemma_br_rep_one(x.sequence@, u);
         lemma_br_rep_one(y.sequence@, v);
         assert(br_member(x.sequence@, u) && br_member(y.sequence@, v) && w =~= u + v);
-    }
-}
-
-/// copies have the same bound sum; two copies of one list are copies of each other
-pub proof fn lemma_br_sum_copy(a: Seq<BrickDomain>, b: Seq<BrickDomain>)
-    requires br_list_copy(a, b),
-    ensures br_max_sum(a) == br_max_sum(b),
-    decreases a.len()
-{
-    if a.len() > 0 {
-        assert(br_list_copy(a.drop_last(), b.drop_last())) by {
-            assert forall |i: int| 0 <= i < a.drop_last().len() implies (#[trigger] a.drop_last()[i]).br_copy(&b.drop_last()[i]) by {
-                assert(a[i].br_copy(&b[i]));
-            }
-        }
-        lemma_br_sum_copy(a.drop_last(), b.drop_last());
-        assert(a[a.len() - 1].br_copy(&b[a.len() - 1]));
-    }
-}
-
-/// two neighbouring upper bounds are covered by the sum of all upper bounds
-pub proof fn lemma_br_sum_two(l: Seq<BrickDomain>, i: int)
-    requires 0 <= i, i + 1 < l.len(),
-    ensures br_max_of(l[i]) + br_max_of(l[i + 1]) <= br_max_sum(l),
-{
-    let pre = l.subrange(0, i);
-    let post = l.subrange(i + 2, l.len() as int);
-    let mid = seq![l[i], l[i + 1]];
-    assert(l =~= pre + mid + post);
-    lemma_br_sum_concat(pre + mid, post);
-    lemma_br_sum_concat(pre, mid);
-    lemma_br_sum_small(mid);
-}
-
-/// a list of bricks with small upper bounds has a small sum of upper bounds
-pub proof fn lemma_br_small_sum(l: Seq<BrickDomain>)
-    requires br_list_small(l),
-    ensures br_max_sum(l) <= INTERVAL_THRESHOLD * l.len(),
-    decreases l.len()
-{
-    if l.len() > 0 {
-        assert(br_list_small(l.drop_last())) by {
-            assert forall |i: int| 0 <= i < l.drop_last().len() implies br_max_of(#[trigger] l.drop_last()[i]) <= INTERVAL_THRESHOLD by { assert(l.drop_last()[i] == l[i]); }
-        }
-        lemma_br_small_sum(l.drop_last());
-        assert(br_max_of(l[l.len() - 1]) <= INTERVAL_THRESHOLD);
     }
 }
 
